@@ -57,3 +57,142 @@ Qed.
 Example counter_wrap_example :
   counter_increase false 2147483647 1 = -2147483648 /\ counter_increase true 9223372036854775807 1 = -9223372036854775808.
 Proof. split; reflexivity. Qed.
+
+(* ---- object members: every live member is the one linked under its key ------------ *)
+From YV Require Import Proofs.TicketProofs.
+
+Lemma nget_nset l n id : nget (nset l n) id = if teqb (rn_id n) id then Some n else nget l id.
+Proof.
+  induction l as [|x r IH]; cbn [nset nget]; [reflexivity|].
+  destruct (teqb (rn_id x) (rn_id n)) eqn:E; cbn [nget].
+  - apply teqb_spec in E. rewrite E. destruct (teqb (rn_id n) id); reflexivity.
+  - destruct (teqb (rn_id x) id) eqn:E2.
+    + apply teqb_spec in E2. subst id. rewrite (teqb_sym (rn_id n) (rn_id x)), E. reflexivity.
+    + exact IH.
+Qed.
+
+Lemma kget_kset l k t k' : kget (kset l k t) k' = if N.eqb k k' then Some t else kget l k'.
+Proof.
+  induction l as [|[k0 t0] r IH]; cbn [kset kget].
+  - reflexivity.
+  - destruct (N.eqb_spec k0 k) as [->|Hn]; cbn [kget].
+    + destruct (N.eqb k k'); reflexivity.
+    + destruct (N.ltb k k0); cbn [kget].
+      * destruct (N.eqb k k'); reflexivity.
+      * destruct (N.eqb_spec k0 k') as [->|Hn2].
+        -- destruct (N.eqb_spec k k'); [congruence|reflexivity].
+        -- exact IH.
+Qed.
+
+(* well-formedness of the table *)
+Record rht_wf (h : erht) : Prop := {
+  wf_linked : forall k id, kget (by_key h) k = Some id -> exists n, nget (nodes h) id = Some n /\ rn_key n = k;
+  wf_live : forall id n, nget (nodes h) id = Some n -> rn_removed n = None -> kget (by_key h) (rn_key n) = Some id;
+  wf_moved : forall id n m, nget (nodes h) id = Some n -> rn_moved n = Some m -> tafter (rn_id n) m = false;
+  wf_ids : forall id n, nget (nodes h) id = Some n -> rn_id n = id
+}.
+
+Lemma rht_wf_empty : rht_wf empty_erht.
+Proof. constructor; cbn; intros; discriminate. Qed.
+
+Lemma tafter_irrefl' a : tafter a a = false.
+Proof. apply tafter_false. apply tgt_irrefl. Qed.
+
+Lemma rn_remove_same n t :
+  rn_id (fst (rn_remove n t)) = rn_id n /\ rn_moved (fst (rn_remove n t)) = rn_moved n /\
+  rn_key (fst (rn_remove n t)) = rn_key n.
+Proof. unfold rn_remove. destruct (tafter t (rn_id n) && _); cbn; auto. Qed.
+
+(* a Set with a fresh ticket keeps the table well formed: in particular the
+   loser of the last-writer-wins race is tombstoned and never stays live but
+   unlinked (the defect fixed by b8193858) *)
+Theorem rht_set_wf h k id val :
+  rht_wf h -> nget (nodes h) id = None ->
+  (forall id' n, nget (nodes h) id' = Some n -> rn_positioned n <> id) ->
+  rht_wf (rht_set h k id val id).
+Proof.
+  intros [Hl Hv Hm Hi] Hfresh Hpos. unfold rht_set, linked.
+  destruct (kget (by_key h) k) as [lid|] eqn:Ek.
+  - destruct (Hl k lid Ek) as (old & Hold & Hkold). rewrite Hold.
+    pose proof (Hi _ _ Hold) as Hidold.
+    destruct (tafter id (rn_positioned old)) eqn:Hwin.
+    + (* the new value wins *)
+      set (old' := match rn_removed old with None => fst (rn_remove old id) | Some _ => old end).
+      assert (Hold'id : rn_id old' = lid).
+      { unfold old', rn_remove. destruct (rn_removed old); [exact Hidold|].
+        destruct (tafter id (rn_id old) && true); exact Hidold. }
+      assert (Hold'rm : rn_removed old' <> None).
+      { unfold old'. destruct (rn_removed old) eqn:Er; [congruence|].
+        unfold rn_remove. rewrite Er.
+        assert (tafter id (rn_id old) = true).
+        { unfold rn_positioned in Hwin. destruct (rn_moved old) as [m|] eqn:Emv; [|exact Hwin].
+          pose proof (Hm _ _ _ Hold Emv) as Hle.
+          destruct (teqb (rn_id old) m) eqn:Eq; [apply teqb_spec in Eq; now rewrite Eq|].
+          assert (rn_id old <> m) by (intros F; rewrite F, teqb_refl in Eq; discriminate).
+          destruct (tafter_total_b (rn_id old) m H) as [G|G]; [congruence|].
+          eapply tafter_trans_b; eassumption. }
+        rewrite H. cbn. discriminate. }
+      assert (Hlid : lid <> id) by (intros ->; congruence).
+      constructor; cbn [by_key nodes].
+      * intros k' id' H. rewrite kget_kset in H. destruct (N.eqb_spec k k') as [<-|Hn].
+        -- inversion H; subst id'. eexists. rewrite nget_nset. cbn [rn_id]. rewrite teqb_refl. split; reflexivity.
+        -- destruct (Hl k' id' H) as (n & Hn1 & Hn2). rewrite !nget_nset. cbn [rn_id].
+           destruct (teqb id id') eqn:E1; [apply teqb_spec in E1; subst id'; congruence|].
+           rewrite Hold'id. destruct (teqb lid id') eqn:E2.
+           ++ apply teqb_spec in E2. subst id'. rewrite Hold in Hn1. inversion Hn1; subst n. congruence.
+           ++ eauto.
+      * intros id' n H Hlive. rewrite !nget_nset in H. cbn [rn_id] in H.
+        destruct (teqb id id') eqn:E1.
+        -- apply teqb_spec in E1. inversion H; subst. cbn [rn_key]. rewrite kget_kset, N.eqb_refl. reflexivity.
+        -- rewrite Hold'id in H. destruct (teqb lid id') eqn:E2; [inversion H; subst; contradiction|].
+           pose proof (Hv _ _ H Hlive) as Hk. rewrite kget_kset.
+           destruct (N.eqb_spec k (rn_key n)) as [Heq|]; [|exact Hk].
+           rewrite <- Heq, Ek in Hk. inversion Hk; subst. rewrite teqb_refl in E2. discriminate.
+      * intros id' n m H Hmv. rewrite !nget_nset in H. cbn [rn_id] in H.
+        destruct (teqb id id') eqn:E1.
+        -- inversion H; subst. cbn in Hmv. inversion Hmv; subst. cbn. apply tafter_irrefl'.
+        -- rewrite Hold'id in H. destruct (teqb lid id') eqn:E2.
+           ++ inversion H; subst n.
+              assert (Hsame : rn_id old' = rn_id old /\ rn_moved old' = rn_moved old).
+              { unfold old'. destruct (rn_removed old); [auto|]. destruct (rn_remove_same old id) as (A & B & _). auto. }
+              destruct Hsame as [A B]. rewrite A. rewrite B in Hmv. eapply Hm; eauto.
+           ++ eapply Hm; eauto.
+      * intros id' n H. rewrite !nget_nset in H. cbn [rn_id] in H.
+        destruct (teqb id id') eqn:E1; [apply teqb_spec in E1; inversion H; subst; reflexivity|].
+        rewrite Hold'id in H. destruct (teqb lid id') eqn:E2; [apply teqb_spec in E2; inversion H; subst; exact Hold'id|].
+        eapply Hi; eauto.
+    + (* the new value loses: it is tombstoned *)
+      assert (Hne : rn_positioned old <> id) by (eapply Hpos; eauto).
+      assert (Hgt : tafter (rn_positioned old) id = true).
+      { destruct (tafter_total_b (rn_positioned old) id Hne) as [G|G]; [exact G|congruence]. }
+      assert (Hrm : rn_removed (fst (rn_remove (mkRN k id val None None) (rn_positioned old))) <> None).
+      { unfold rn_remove. cbn [rn_id rn_removed]. rewrite Hgt. cbn. discriminate. }
+      assert (Hid' : rn_id (fst (rn_remove (mkRN k id val None None) (rn_positioned old))) = id).
+      { unfold rn_remove. cbn [rn_id rn_removed]. rewrite Hgt. reflexivity. }
+      constructor; cbn [by_key nodes].
+      * intros k' id' H. destruct (Hl k' id' H) as (n & Hn1 & Hn2). rewrite nget_nset, Hid'.
+        destruct (teqb id id') eqn:E1; [apply teqb_spec in E1; subst; congruence|eauto].
+      * intros id' n H Hlive. rewrite nget_nset, Hid' in H.
+        destruct (teqb id id') eqn:E1; [inversion H; subst; contradiction|eauto].
+      * intros id' n m H Hmv. rewrite nget_nset, Hid' in H.
+        destruct (teqb id id') eqn:E1; [|eauto].
+        inversion H; subst. unfold rn_remove in Hmv. cbn [rn_id rn_removed] in Hmv. rewrite Hgt in Hmv. discriminate.
+      * intros id' n H. rewrite nget_nset, Hid' in H.
+        destruct (teqb id id') eqn:E1; [apply teqb_spec in E1; inversion H; subst; exact Hid'|eauto].
+  - (* key never set *)
+    constructor; cbn [by_key nodes].
+    + intros k' id' H. rewrite kget_kset in H. destruct (N.eqb_spec k k') as [<-|Hn].
+      * inversion H; subst. eexists. rewrite nget_nset. cbn [rn_id]. rewrite teqb_refl. split; reflexivity.
+      * destruct (Hl k' id' H) as (n & Hn1 & Hn2). rewrite nget_nset. cbn [rn_id].
+        destruct (teqb id id') eqn:E1; [apply teqb_spec in E1; subst; congruence|eauto].
+    + intros id' n H Hlive. rewrite nget_nset in H. cbn [rn_id] in H. rewrite kget_kset.
+      destruct (teqb id id') eqn:E1.
+      * apply teqb_spec in E1. inversion H; subst. cbn. now rewrite N.eqb_refl.
+      * pose proof (Hv _ _ H Hlive) as Hk. destruct (N.eqb_spec k (rn_key n)) as [Heq|]; [|exact Hk].
+        rewrite <- Heq in Hk. congruence.
+    + intros id' n m H Hmv. rewrite nget_nset in H. cbn [rn_id] in H.
+      destruct (teqb id id') eqn:E1; [|eauto].
+      inversion H; subst. cbn in Hmv. inversion Hmv; subst. cbn. apply tafter_irrefl'.
+    + intros id' n H. rewrite nget_nset in H. cbn [rn_id] in H.
+      destruct (teqb id id') eqn:E1; [apply teqb_spec in E1; inversion H; subst; reflexivity|eauto].
+Qed.
